@@ -31,6 +31,8 @@ pub struct Oracles {
     pub custom_log: bool,
     /// ownership probes must succeed wherever the model says the handle is the sole owner
     pub ownership: bool,
+    /// a panic in an admissible step is a failure of this property (otherwise the case is discarded and counted)
+    pub panics_fail: bool,
 }
 
 #[derive(Clone, Debug)]
@@ -209,6 +211,7 @@ impl Interp {
             (Err(RefErr::Refuse(_)), Err(_)) => return Err(HOutcome::Discard("operation refused, as the reference demands".into())),
             (Err(RefErr::Refuse(w)), Ok(())) => return Err(fail("not-refused", op_at(s), format!("step {} {:?} must be refused ({}) but returned", idx, s, w), &self.stats)),
             (Ok(()), Err(p)) if is_discard(p) => return Err(HOutcome::Discard(p.clone())),
+            (Ok(()), Err(p)) if !self.or.panics_fail => return Err(HOutcome::Discard(format!("a step panicked ({}); panics are judged by C01-C07/C10, not by this property", p.chars().take(60).collect::<String>()))),
             (Ok(()), Err(p)) => {
                 let kind = if matches!(s, Step::Backward { .. }) { "panic-in-backward" } else { "unexpected-panic" };
                 return Err(fail(kind, op_at(s), format!("step {} ({}) panicked: {}", idx, step_describe(s, &self.m), p), &self.stats));
@@ -253,11 +256,12 @@ impl Interp {
         match s {
             Step::Rebind { target, .. } | Step::IfGt { target, .. } => self.snaps[*target] = self.ex.slots[*target].as_ref().map(snap),
             Step::Update { params, .. } => {
-                for (p, before) in params.iter().zip(&nodes_before) {
-                    // a parameter that held a gradient is a new array; an untouched one keeps its snapshot
-                    if self.m.handle(*p).node != *before {
-                        self.snaps[*p] = self.ex.slots[*p].as_ref().map(snap);
-                    }
+                // which parameters get a new array is the optimizer's business (C13): every parameter handle gets a
+                // fresh snapshot; the arrays they held before are judged through the other live handles on them
+                // (no extra clone is taken here: that would change what the optimizer sees as shared storage)
+                let _ = &nodes_before;
+                for p in params {
+                    self.snaps[*p] = self.ex.slots[*p].as_ref().map(snap);
                 }
             }
             Step::Drop { h } => self.snaps[*h] = None,
